@@ -33,7 +33,7 @@ func init() {
 }
 
 const (
-	c16Timeout  = 20 * time.Second
+	c16Timeout  = 6 * time.Second
 	c16Value    = 0
 	c16Error    = 1
 	c16Panic    = 2
@@ -210,6 +210,7 @@ func c16Sandbox(b []byte) []byte {
 }
 
 var c16boxOnce sync.Once
+var c16Hangs = map[int]int{}
 
 // one guarded call: class and what it allocated
 func c16Call(f func() bool) (class int, alloc uint64) {
@@ -309,6 +310,9 @@ func runC16(idx int, rng *rand.Rand, tier string) []Case {
 	}
 	c16mu.Lock()
 	defer c16mu.Unlock()
+	if c16Hangs[parser] >= 3 {
+		return nil // this parser has stopped answering three times already; more of the same tells nothing new
+	}
 
 	budget := len(in) + 3 // no parser can yield more values than this from len(in) bytes
 	values, final := 0, c16NoEnd
@@ -392,6 +396,9 @@ func runC16(idx int, rng *rand.Rand, tier string) []Case {
 		}
 	}
 
+	if final == c16Hang || (len(after) > 0 && after[len(after)-1] == c16Hang) {
+		c16Hangs[parser]++
+	}
 	var c Case
 	w := &c.W
 	w.Z(1)
